@@ -33,11 +33,11 @@ TEXT = {
     "C12": ("Proved by header-list algebra for every original header list, every list of other codings and every trailer list: C12_content_length, C12_transfer_encoding, C12_no_trailer, C12_others; plus an independent post-condition checker on the implementation.",
             "full"),
     "C13": ("Proved for every DEFLATE stream: canonical Huffman decoding is correct for every table of code lengths (decodeSym_canon), the symbol loop for any pair of code books (inflateCodes_book), dynamic block headers with any run-length coded tables (dynamicBlock_spec), stored blocks from any bit offset (storedBlock_spec), any sequence of stored / fixed / dynamic blocks (inflateBlocks_blocks), bare, in gzip (with any optional header fields: C13_gzip_bytes_opt) and in zlib, for byte strings with arbitrary padding bits (C13_inflateRaw_bytes, C13_gzip_bytes, C13_zlib_bytes, sniff_blocks), and at decode_body for every stack of codings each written by ANY conforming encoder (C13_decodeBody_every_encoder; a Deflater is any function to block sequences that respects the format and expands to the body). Non-vacuity against real zlib output: Hm/C13Example (kernel-evaluated) and the encoder-spec family of the check (every level / strategy / flush pattern: description satisfies Block.Ok, re-encodes bit for bit, expands to the data). Fidelity of the inflate model to flate2/miniz_oxide: correspondence.",
-            "full for the model of flate2; model fidelity by correspondence"),
+            "full for the model of flate2 on single-member gzip, zlib and bare deflate; model fidelity by correspondence; gzip bodies of several members: known finding KF5"),
     "C14": ("Proved for arbitrary codec functions: C14_failure_atomic, C14_content_length, C14_content_encoding, C14_others_unchanged; instance with the modelled decoders C13_decodeBody_level0_stacks; independent post-condition checker on the implementation.",
             "full"),
     "C15": ("Proved on the container/inflate model for all byte strings: truncation theorems at the entry points (C15_gunzip_truncated, C15_zlibDecode_truncated, C15_inflateRaw_truncated, and hypothesis-free for every level-0 stream), checks applied (C15_gzip_check, C15_zlib_check), altered trailers rejected (C15_gzip_field_altered, C15_zlib_field_altered), header checks (C15_gzip_signature, C15_zlib_header), lifted to decode_body for the gzip layer. Single-bit flips inside compressed data are checked on the implementation against the three allowed outcomes with an independent CRC-32 / Adler-32.",
-            "partial: theorems about the model of flate2; fidelity validated on valid streams, truncations and field edits"),
+            "partial: theorems about the model of flate2; fidelity validated on valid streams, truncations and field edits; later members of a multi-member gzip body: known finding KF5"),
     "C16": ("Proved: C16_some_only_if_text, C16_default_charset, C16_charset_decides, C16_charset_first_param and C16_charset_absent (which parameter decides, for every parameter list), C16_utf8_exact (against core's declarative IsValidUTF8), C16_latin1_total, C16_latin1_ascii, C16_latin1_no_replacement, kernel-evaluated label facts over the 228-row table, C18_charset_label_case. Legacy multi-byte decoders are not modelled (label resolution and absence of U+FFFD checked on the implementation).",
             "full for UTF-8 and the default; legacy decoders by observation"),
     "C17": ("Proved on the exact model of Rust's integer parsers: C17_request_content_length, C17_chunk_size, C17_status_code (acceptance implies digits only); exhaustive strings over a 13-symbol alphabet in all five positions against the implementation.",
